@@ -22,9 +22,13 @@ for src in sys.argv[1:]:
     dst = os.path.join(VERIF, "seeded", sid)
     os.makedirs(dst, exist_ok=True)
     for f in ("patch.diff", "demo.py", "meta.json"):
-        shutil.copy(os.path.join(src, f), os.path.join(dst, f))
+        if os.path.realpath(os.path.join(src, f)) != os.path.realpath(os.path.join(dst, f)):
+            shutil.copy(os.path.join(src, f), os.path.join(dst, f))
     meta = json.load(open(os.path.join(dst, "meta.json")))
     props = EXTRA.get(sid, [meta["property"]])
+    prev = (meta.get("verification") or {}).get("caught_by")
+    if prev and os.path.realpath(src) == os.path.realpath(dst):
+        props = prev  # re-verification of an adopted change: the checks recorded as catching it
     p = subprocess.run([os.path.join(VERIF, "tools", "seedtest.py"), dst, "--props=" + ",".join(props)],
                        capture_output=True, text=True)
     rec = json.loads(p.stdout.strip().splitlines()[-1])
